@@ -23,9 +23,9 @@ from tools import projgen, vlib
 from tools.vlib import Outcome, sx
 
 MANIFEST = {
-    "level_text": "Coq theorems (Properties/C10.v, no axioms) about a Gallina transcription of the plain renderer (base/type_visitor.rs), ZodVisitor (visit_type, visit_type_for_interface), ZodSchemaBuilder::render_type/build_schema/build_param_schema (validator None) and of the types.ts templates of both modes, for ALL TypeStructure values, mappings and analysis results: the text of the plain renderer (and of the Zod visitor's interface renderer) lexes and parses to the modelled declaration tree for every in-domain type within the parser's nesting budget (structural induction through the specification lexer and parser, C10_plain_text_denotes), and so does the text of the schema builder (C10_builder_text_denotes); per-key shape agreement, stated on the parsed texts (C10_shapes, C10_json, C10_accept), between the Zod schema and the plain declaration outside four narrow recorded classes (z.set, Result union, T | null[], each refuted with a computed witness), JSON-serialisability of parameter schemas outside the z.set class, structural acceptance outside the Option class (.optional() refuses the explicit null; refuted), equal key lists per item, and equal type-name lists for every analysis result (the enum class was repaired by C10-5-zod-enum-alias; its former witness is now a positive theorem). Tied to /repo on every run: the model's five strings equal the real renderers' output, the specification parser (Spec/TsModule.v) reads the model's syntax trees from them, and types.ts written by both real generators (in-process generate_models and the real CLI on random projects) parse to the model's items; the extracted oracle compare_modules is applied to the implementation's files. Round 7: module level proved (C10_modules: for every analysis result outside every class with distinct type names and distinct keys per declaration, compare_modules of the two modelled modules returns no tag; lookup lemmas under NoDup names; C10_modules_premises_needed shows the added premises are necessary), ZodVisitor::visit_type text by structural induction (C10_visitor_text_denotes), and the Zod templates at text level: the member lines (C10_member_text_denotes, C10_shapes_field_text / _param_text) and the whole initialiser z.object({ ... }) of a struct schema / parameter schema including the trailing comma (C10_struct_schema_text_denotes, C10_param_schema_text_denotes), whose text is compared verbatim with the real types.ts on every in-process case.",
+    "level_text": "Coq theorems (Properties/C10.v, no axioms) about a Gallina transcription of the plain renderer (base/type_visitor.rs), ZodVisitor (visit_type, visit_type_for_interface), ZodSchemaBuilder::render_type/build_schema/build_param_schema (validator None) and of the types.ts templates of both modes, for ALL TypeStructure values, mappings and analysis results: the text of the plain renderer (and of the Zod visitor's interface renderer) lexes and parses to the modelled declaration tree for every in-domain type within the parser's nesting budget (structural induction through the specification lexer and parser, C10_plain_text_denotes), and so does the text of the schema builder (C10_builder_text_denotes); per-key shape agreement, stated on the parsed texts (C10_shapes, C10_json, C10_accept), between the Zod schema and the plain declaration outside four narrow recorded classes (z.set, Result union, T | null[], each refuted with a computed witness), JSON-serialisability of parameter schemas outside the z.set class, structural acceptance outside the Option class (.optional() refuses the explicit null; refuted), equal key lists per item, and equal type-name lists for every analysis result (the enum class was repaired by C10-5-zod-enum-alias; its former witness is now a positive theorem). Tied to /repo on every run: the model's five strings equal the real renderers' output, the specification parser (Spec/TsModule.v) reads the model's syntax trees from them, and types.ts written by both real generators (in-process generate_models and the real CLI on random projects) parse to the model's items; the extracted oracle compare_modules is applied to the implementation's files. Round 7: module level proved (C10_modules: for every analysis result outside every class with distinct type names and distinct keys per declaration, compare_modules of the two modelled modules returns no tag; lookup lemmas under NoDup names; C10_modules_premises_needed shows the added premises are necessary), ZodVisitor::visit_type text by structural induction (C10_visitor_text_denotes), and the Zod templates at text level: the member lines (C10_member_text_denotes, C10_shapes_field_text / _param_text) and the whole initialiser z.object({ ... }) of a struct schema / parameter schema including the trailing comma (C10_struct_schema_text_denotes, C10_param_schema_text_denotes), whose text is compared with the real types.ts on every in-process case (modulo white space outside string literals; verbatim equality is counted beside it).",
     "design_ref": "DESIGN.md section 5 C10, section 12",
-    "level_note": "String level is proved for all four renderers for every in-domain type within the specification parsers' nesting budgets: C10_plain_text_denotes (plain + visit_type_for_interface), C10_builder_text_denotes (ZodSchemaBuilder, validator None), C10_visitor_text_denotes / _depth (ZodVisitor::visit_type, round 7, structural induction; the depth-2 sweep C10_denotation_sweep stays as independent evidence), and C10_shapes / C10_json / C10_accept read both printed texts back. Round 7: (a) C10_modules is asserted: proj_ok p -> v_tags (compare_modules (plain_items p) (zod_items p)) = [] for ALL analysis results with primitive mapping targets, members outside every class (clean, no Option, optional flag off), channel types in the domain without a union under an array, enums with >= 1 variant, distinct serialised keys inside one declaration, non-empty command type names and NoDup type names (Proofs/C10Modules.v: find_nth under NoDup names returns the declaring item in both modules; no premise about reachability). The former C10_modules_full_statement was FALSE as stated (C10_modules_premises_needed: enum without variants, optional flag on a non-Option type, duplicate key each give the tag shape; its proj_dom also allowed non-primitive mapping targets). (b) Zod templates at text level (Model/C10ZodText.v): member expression texts incl. the second .optional() (C10_member_text_denotes; C10_shapes_field_text / _param_text lift the two member theorems to the printed member texts, the old _partial names remain as the tree-level lemmas), and the whole initialiser of a schema constant, z.object({ newline key: schema, ... newline }) with trailing comma, for any number of members with identifier keys (C10_struct_schema_text_denotes, C10_param_schema_text_denotes, C10_struct_schema_text_keys; Proofs/C10ObjectText.v: p_props with trailing commas, p_expr through z . object ( { ... } ), white-space runs in the lexer). New correspondence: coverage.schema_text_level = every struct / parameter schema initialiser of every in-process case compared verbatim with the real types.ts (18 485 constants per quick run). Still partial / not modelled: (1) the plain templates (export interface X { key?: T; ... [key: string]: unknown; }) and the export const / export type lines are modelled at tree level only: the item parser (p_item / p_members) has no round-trip proof; the member type text is covered (plain_member_text); (2) quoted (non-identifier) keys in z.object text: compared at run time, not in the theorem (pprop of C10ParseEx handles KeyId only); (3) C10_modules speaks about tags outside every class; inside a class (Option, set, Result, union under array) only the per-key theorems and the run-time check apply; v_detail / v_keys are not stated (they are functions of the same rows); (4) theorems assume primitive mapping targets (map_ok): lookup_target is used in about ten lemmas of C10Proofs / C10LexTy / C10LexEx; wider targets (z.custom<T>) are covered by the correspondence run only; (5) enum constants and z.enum([...]) text are tree level. C10_oracle_exact reflects the per-key oracle. Validator chains are stripped, not modelled (C11). At project level the TypeStructure of a Rust type is the structure of its syntax tree (structure_of), checked per project against the real CLI. Key quoting (ts_key) treats bytes above 127 as letters. Meaning of Zod combinators is a specification (Zod 4 documentation), not verified against a Zod runtime; record keys: z.number() assumed to accept numeric string keys (Zod >= 4.2).",
+    "level_note": "String level is proved for all four renderers for every in-domain type within the specification parsers' nesting budgets: C10_plain_text_denotes (plain + visit_type_for_interface), C10_builder_text_denotes (ZodSchemaBuilder, validator None), C10_visitor_text_denotes / _depth (ZodVisitor::visit_type, round 7, structural induction; the depth-2 sweep C10_denotation_sweep stays as independent evidence), and C10_shapes / C10_json / C10_accept read both printed texts back. Round 7: (a) C10_modules is asserted: proj_ok p -> v_tags (compare_modules (plain_items p) (zod_items p)) = [] for ALL analysis results with primitive mapping targets, members outside every class (clean, no Option, optional flag off), channel types in the domain without a union under an array, enums with >= 1 variant, distinct serialised keys inside one declaration, non-empty command type names and NoDup type names (Proofs/C10Modules.v: find_nth under NoDup names returns the declaring item in both modules; no premise about reachability). The former C10_modules_full_statement was FALSE as stated (C10_modules_premises_needed: enum without variants, optional flag on a non-Option type, duplicate key each give the tag shape; its proj_dom also allowed non-primitive mapping targets). (b) Zod templates at text level (Model/C10ZodText.v): member expression texts incl. the second .optional() (C10_member_text_denotes; C10_shapes_field_text / _param_text lift the two member theorems to the printed member texts, the old _partial names remain as the tree-level lemmas), and the whole initialiser of a schema constant, z.object({ newline key: schema, ... newline }) with trailing comma, for any number of members with identifier keys (C10_struct_schema_text_denotes, C10_param_schema_text_denotes, C10_struct_schema_text_keys; Proofs/C10ObjectText.v: p_props with trailing commas, p_expr through z . object ( { ... } ), white-space runs in the lexer). (c) C10_denotation_all: the run-time denotation test den_ok (all four printed texts read back as the model trees) is true for EVERY in-domain type of depth < 30, i.e. the depth-2 sweep for all types; C10_eqb_exact reflects the run-time equality tests ty_eqb / ex_eqb / item_eqb (equal iff the printed s-expressions are equal; Proofs/C10Eqb.v). New correspondence: coverage.schema_text_level = every struct / parameter schema initialiser of every in-process case compared with the real types.ts modulo white space outside string literals - the theorems are parametric in the white space before the entries, and a re-indented template must stay quiet (mutant m8) - with verbatim equality counted beside it (18 485 of 18 485 constants per quick run). Still partial / not modelled: (1) the plain templates (export interface X { key?: T; ... [key: string]: unknown; }) and the export const / export type lines are modelled at tree level only: the item parser (p_item / p_members) has no round-trip proof; the member type text is covered (plain_member_text); (2) quoted (non-identifier) keys in z.object text: compared at run time, not in the theorem (pprop of C10ParseEx handles KeyId only); (3) C10_modules / C10_modules_verdict (tags, per-item detail and per-key findings all empty) speak about projects outside every class; inside a class (Option, set, Result, union under array) only the per-key theorems and the run-time check apply; (4) theorems assume primitive mapping targets (map_ok): lookup_target is used in about ten lemmas of C10Proofs / C10LexTy / C10LexEx; wider targets (z.custom<T>) are covered by the correspondence run only; (5) enum constants and z.enum([...]) text are tree level. C10_oracle_exact reflects the per-key oracle. Validator chains are stripped, not modelled (C11). At project level the TypeStructure of a Rust type is the structure of its syntax tree (structure_of), checked per project against the real CLI. Key quoting (ts_key) treats bytes above 127 as letters. Meaning of Zod combinators is a specification (Zod 4 documentation), not verified against a Zod runtime; record keys: z.number() assumed to accept numeric string keys (Zod >= 4.2).",
     "technique": "Rocq/Coq proof over hand-written model + correspondence check (extracted OCaml vs Rust harness and real CLI)"
 }
 
@@ -263,19 +263,45 @@ def eval_types(cases):
     return outs
 
 
-SCHEMA_TEXT_STATS = {"constants": 0, "mismatches": 0}
+SCHEMA_TEXT_STATS = {"constants": 0, "verbatim": 0, "mismatches": 0}
+
+
+def _squeeze(text):
+    """Drop white space outside double-quoted literals (quoted keys keep theirs)."""
+    out, i, n, inq = [], 0, len(text), False
+    while i < n:
+        ch = text[i]
+        if inq:
+            out.append(ch)
+            if ch == "\\" and i + 1 < n:
+                out.append(text[i + 1])
+                i += 1
+            elif ch == '"':
+                inq = False
+        elif ch == '"':
+            inq = True
+            out.append(ch)
+        elif not ch.isspace():
+            out.append(ch)
+        i += 1
+    return "".join(out)
 
 
 def schema_text_mismatches(zod_mod, schema_texts):
     """Text level of the schema constants (round 7): for every struct and every command with value
     parameters the model prints the initialiser  z.object({ ... })  (Model/C10ZodText.v: struct_schema_text,
-    param_schema_text; in-process cases carry no validator attributes); it must occur verbatim in the
-    implementation's types.ts after  export const <Name> = , followed by the semicolon.
-    Coq theorems C10_struct_schema_text_denotes / C10_param_schema_text_denotes speak about exactly this text."""
+    param_schema_text; in-process cases carry no validator attributes); it must occur in the implementation's
+    types.ts after  export const <Name> = , followed by the semicolon. Compared modulo white space outside
+    string literals: the theorems C10_struct_schema_text_denotes / C10_param_schema_text_denotes hold for every
+    white-space run in front of the entries (parse_object is parametric in lead / sep), and a re-indented
+    template is not a change of behaviour (it must stay quiet). Exact text equality is counted separately."""
     bad = []
+    squeezed = _squeeze(zod_mod)
     for name, text in schema_texts:
         want = "export const %s = %s;" % (name, text)
-        if want not in zod_mod:
+        if want in zod_mod:
+            SCHEMA_TEXT_STATS["verbatim"] = SCHEMA_TEXT_STATS.get("verbatim", 0) + 1
+        if _squeeze(want) not in squeezed:
             i = zod_mod.find("export const %s = " % name)
             bad.append({"const": name, "model": text, "impl": zod_mod[i:i + len(want) + 40] if i >= 0 else None})
     return bad
